@@ -592,38 +592,41 @@ def x_readings():
         for v in pat.split('|'):
             index_tbl[bx[v.strip()]] = rust_int(expr)
     shifts = {0: 9, 1: 7, 2: 3, 3: 0}   # cross-checked in Lean: `readings_parse` re-parses every spelling with the model
-    raw = read("data/word.src")
-    seen = {}
-    n_lines = 0
-    for ln, line in enumerate(raw.splitlines(), 1):
-        f = line.split()
-        if not f:
-            continue
-        n_lines += 1
-        if len(f) < 3:
-            raise ExtractError(f"word.src:{ln}: fewer than three fields")
-        if len(f[0]) != 1:
-            raise ExtractError(f"word.src:{ln}: the phrase is not a single character")
-        syls = []
-        for s in f[2:]:
-            if s.startswith('#'):
-                break
-            syls.append(s)
-        if len(syls) != 1:
-            raise ExtractError(f"word.src:{ln}: a character with {len(syls)} syllables")
-        code, last = 0, -1
-        for ch in syls[0]:
-            if ch not in from_char:
-                raise ExtractError(f"word.src:{ln}: not a Bopomofo symbol: {ch!r}")
-            b = from_char[ch]
-            k = kind_tbl[b]
-            if k <= last:
-                raise ExtractError(f"word.src:{ln}: symbols out of order in {syls[0]!r}")
-            last = k
-            code |= index_tbl[b] << shifts[k]
-        if code == 0:
-            raise ExtractError(f"word.src:{ln}: empty reading")
-        seen.setdefault(code, [ord(c) for c in syls[0]])
+    def parse_file(path):
+        raw = read(path)
+        seen = {}
+        n_lines = 0
+        for ln, line in enumerate(raw.splitlines(), 1):
+            f = line.split()
+            if not f:
+                continue
+            n_lines += 1
+            if len(f) < 3:
+                raise ExtractError(f"{path}:{ln}: fewer than three fields")
+            if len(f[0]) != 1:
+                raise ExtractError(f"{path}:{ln}: the phrase is not a single character")
+            syls = []
+            for s in f[2:]:
+                if s.startswith('#'):
+                    break
+                syls.append(s)
+            if len(syls) != 1:
+                raise ExtractError(f"{path}:{ln}: a character with {len(syls)} syllables")
+            code, last = 0, -1
+            for ch in syls[0]:
+                if ch not in from_char:
+                    raise ExtractError(f"{path}:{ln}: not a Bopomofo symbol: {ch!r}")
+                b = from_char[ch]
+                k = kind_tbl[b]
+                if k <= last:
+                    raise ExtractError(f"{path}:{ln}: symbols out of order in {syls[0]!r}")
+                last = k
+                code |= index_tbl[b] << shifts[k]
+            if code == 0:
+                raise ExtractError(f"{path}:{ln}: empty reading")
+            seen.setdefault(code, [ord(c) for c in syls[0]])
+        return raw, seen, n_lines
+    raw, seen, n_lines = parse_file("data/word.src")
     codes = sorted(seen)
     L = [HEADER.format(src="data/word.src", h=sha(raw)), "namespace Chewing.Gen\n",
          f"def wordSrcLines : Nat := {n_lines}\n",
@@ -632,4 +635,11 @@ def x_readings():
          "/-- their spellings as written in the file (code points), same order -/",
          f"def readingSpellings : List (List Nat) := {lean_list([lean_list(map(str, seen[c])) for c in codes], 6)}\n",
          "end Chewing.Gen\n"]
-    return {"Readings.lean": "\n".join(L)}
+    # the built-in fallback dictionary (capi/data/mini.dat is built from data/mini.src)
+    mraw, mseen, mlines = parse_file("data/mini.src")
+    M = [HEADER.format(src="data/mini.src", h=sha(mraw)), "namespace Chewing.Gen\n",
+         f"def miniSrcLines : Nat := {mlines}\n",
+         "/-- distinct readings (syllable codes) of data/mini.src, ascending -/",
+         f"def miniReadingCodes : List Nat := {lean_list(map(str, sorted(mseen)), 16)}\n",
+         "end Chewing.Gen\n"]
+    return {"Readings.lean": "\n".join(L), "ReadingsMini.lean": "\n".join(M)}
